@@ -194,3 +194,10 @@ Example C20_nonvacuous :
   match Section_findRelated (NameFilter "B") [Node (mkNode "a" "A" "u" [] None None) [nv_leaf "c" "C" "u"; nv_leaf "d" "D" "t"]; nv_tree]
                             (nv_leaf "c" "C" "u") with Ok r => map tid r | _ => [] end = ["b"]%string.
 Proof. vm_compute. repeat split. Qed.
+
+(** the hand copy of [util::looksLikeUUID] in the model is the definition the translator regenerates from
+    src/util/util.cpp on every run *)
+Require NixV.Store.GenBridge NixV.Gen.GenUtil.
+Theorem C20_looksLikeUUID_is_generated : forall s, NixV.Store.Search.looksLikeUUID s = NixV.Gen.GenUtil.looksLikeUUID s.
+Proof. exact NixV.Store.GenBridge.search_looksLikeUUID_is_generated. Qed.
+Print Assumptions C20_looksLikeUUID_is_generated.
